@@ -503,7 +503,7 @@ func (p *PQL) Execute() {
 		case ruleAction45:
 			p.addVal(p.endCall())
 		case ruleAction46:
-			p.addVal(text)
+			p.addVal(barewordValue(text))
 		case ruleAction47:
 			p.addVal(unquoteDouble(text[1 : len(text)-1]))
 		case ruleAction48:
@@ -3100,7 +3100,7 @@ func (p *PQL) Init() {
 		nil,
 		/* 79 Action45 <- <{ p.addVal(p.endCall()) }> */
 		nil,
-		/* 80 Action46 <- <{ p.addVal(text) }> */
+		/* 80 Action46 <- <{ p.addVal(barewordValue(text)) }> */
 		nil,
 		/* 81 Action47 <- <{ p.addVal(unquoteDouble(text[1:len(text)-1])) }> */
 		nil,
